@@ -26,6 +26,15 @@ type Node struct {
 	Handler  string // "" (none configured) | ok | fail (the error handler itself returns an error)
 	Name     string
 	Children []Node `json:",omitempty"`
+	ViaGroup bool   `json:",omitempty"` // mounted through a Group of the parent: parent.Group(head).Use(rest, sub)
+}
+
+// splitGroup splits a mount prefix into a group prefix and the rest so that both together give the same full prefix
+func splitGroup(p string) (string, string) {
+	if i := strings.Index(p[1:], "/"); i >= 0 && i+2 < len(p) {
+		return p[:i+1], p[i+1:]
+	}
+	return p, "/"
 }
 
 type Case struct {
@@ -145,12 +154,20 @@ func build(c Case) (*fiber.App, *run) {
 		for _, nd := range nodes {
 			sub := fiber.New(cfg(nd.Name, nd.Handler))
 			routes(sub)
+			use := func() {
+				if nd.ViaGroup {
+					head, rest := splitGroup(nd.Prefix)
+					parent.Group(head).Use(rest, sub)
+				} else {
+					parent.Use(nd.Prefix, sub)
+				}
+			}
 			if c.TopDown {
-				parent.Use(nd.Prefix, sub)
+				use()
 				mount(sub, nd.Children)
 			} else {
 				mount(sub, nd.Children)
-				parent.Use(nd.Prefix, sub)
+				use()
 			}
 		}
 	}
@@ -281,6 +298,7 @@ func genNodes(t *rapid.T, depth int, base string, shareable bool, used map[strin
 		used[full] = true
 		*ctr++
 		nd := Node{Prefix: p, Handler: rapid.SampledFrom([]string{"", "ok", "ok", "fail", "fail-pass", "fail-fiber"}).Draw(t, "h"), Name: fmt.Sprintf("app%d", *ctr)}
+		nd.ViaGroup = rapid.IntRange(0, 2).Draw(t, "viagroup") == 0
 		if depth > 0 {
 			nd.Children = genNodes(t, depth-1, full, !isShared && !strings.HasSuffix(p, "/"), used, ctr)
 		}
